@@ -149,7 +149,11 @@ Record world : Type := mkWorld {
   w_sib_id : Z; w_sib_attached : bool;     (* sibling message on the same interface, never static *)
   w_node2_id : Z; w_on_bus2 : bool;        (* second node / interface *)
   w_in_net : bool;                         (* bus added to the network *)
-  w_iface_removed : bool }.                (* Node.RemoveInterface done: the node has no interface left *)
+  w_iface_removed : bool;                  (* Node.RemoveInterface done: the node has no interface left *)
+  w_big_id : Z; w_big : bool;              (* an oversized (9-byte) message sent by the same interface:
+                                              a CAN 2.0A bus refuses an interface that carries it *)
+  w_static2 : option Z }.                  (* static CAN-ID of the second node's message, if any
+                                              (constant): static CAN-IDs are unique per bus *)
 
 Inductive edit : Type :=
 | EUse (k : kind) (from len : Z)           (* UseMessagePriority (len = 2) / UseMessageID / UseNodeID / UseBitMask / UseCAN2A *)
@@ -176,6 +180,7 @@ Inductive wop : Type :=
 | WBusRemoveAll                 (* Bus.RemoveAllNodeInterfaces *)
 | WRemoveInterface              (* Node.RemoveInterface: takes the interface off its bus; the
                                    message keeps its sender interface and that keeps its node *)
+| WBigAdd | WBigRemove          (* AddSentMessage / RemoveSentMessage of the oversized message *)
 | WNetAdd | WNetRemove          (* Network.AddBus / RemoveBus of the bus: detaches nothing *)
 | WBusAdd2 | WBusRemove2        (* the second node's interface joins / leaves the bus *)
 | WSetBuilderB (i : nat)        (* the second bus takes pool[i] (shared builder): no effect here *)
@@ -192,16 +197,26 @@ Fixpoint set_nth {A : Type} (i : nat) (v : A) (l : list A) : list A :=
 (* field updates *)
 Definition upd_msg (w : world) (id prio st : Z) (hs : bool) : world :=
   mkWorld id prio st hs (w_attached w) (w_on_bus w) (w_node_id w) (w_builders w) (w_cur w)
-    (w_sib_id w) (w_sib_attached w) (w_node2_id w) (w_on_bus2 w) (w_in_net w) (w_iface_removed w).
+    (w_sib_id w) (w_sib_attached w) (w_node2_id w) (w_on_bus2 w) (w_in_net w) (w_iface_removed w)
+    (w_big_id w) (w_big w) (w_static2 w).
 Definition upd_links (w : world) (att onb sib onb2 innet rem : bool) : world :=
   mkWorld (w_id w) (w_prio w) (w_static w) (w_has_static w) att onb (w_node_id w) (w_builders w) (w_cur w)
-    (w_sib_id w) sib (w_node2_id w) onb2 innet rem.
+    (w_sib_id w) sib (w_node2_id w) onb2 innet rem (w_big_id w) (w_big w) (w_static2 w).
+Definition upd_big (w : world) (big : bool) : world :=
+  mkWorld (w_id w) (w_prio w) (w_static w) (w_has_static w) (w_attached w) (w_on_bus w) (w_node_id w) (w_builders w) (w_cur w)
+    (w_sib_id w) (w_sib_attached w) (w_node2_id w) (w_on_bus2 w) (w_in_net w) (w_iface_removed w)
+    (w_big_id w) big (w_static2 w).
+(* the second node's message holds this static CAN-ID on the bus *)
+Definition static2_is (w : world) (x : Z) : bool :=
+  match w_static2 w with Some y => x =? y | None => false end.
 Definition upd_node (w : world) (nid : Z) : world :=
   mkWorld (w_id w) (w_prio w) (w_static w) (w_has_static w) (w_attached w) (w_on_bus w) nid (w_builders w) (w_cur w)
-    (w_sib_id w) (w_sib_attached w) (w_node2_id w) (w_on_bus2 w) (w_in_net w) (w_iface_removed w).
+    (w_sib_id w) (w_sib_attached w) (w_node2_id w) (w_on_bus2 w) (w_in_net w) (w_iface_removed w)
+    (w_big_id w) (w_big w) (w_static2 w).
 Definition upd_builders (w : world) (bs : list (list op)) (cur : nat) : world :=
   mkWorld (w_id w) (w_prio w) (w_static w) (w_has_static w) (w_attached w) (w_on_bus w) (w_node_id w) bs cur
-    (w_sib_id w) (w_sib_attached w) (w_node2_id w) (w_on_bus2 w) (w_in_net w) (w_iface_removed w).
+    (w_sib_id w) (w_sib_attached w) (w_node2_id w) (w_on_bus2 w) (w_in_net w) (w_iface_removed w)
+    (w_big_id w) (w_big w) (w_static2 w).
 
 (* does the library accept the operation in this state?  (the error it returns otherwise is the
    subject of C06; here only the fact of refusal, which decides whether the state changes) *)
@@ -210,26 +225,38 @@ Definition accepted (w : world) (o : wop) : bool :=
   | WSetPriority _ => true
   | WSetStatic x =>
       (* verifyStaticCANID: the interface's (and its bus's) static ids are the message's own one *)
-      negb (w_attached w && w_has_static w && (u32 x =? w_static w))
+      negb (w_attached w && ((w_has_static w && (u32 x =? w_static w))
+                             || (w_on_bus w && w_on_bus2 w && static2_is w (u32 x))))
   | WUpdateID y =>
       (* unchanged non-static id: nothing to do; else verifyMessageID against the interface's ids *)
       if (u32 y =? w_id w) && negb (w_has_static w) then true
-      else negb (w_attached w && w_sib_attached w && (u32 y =? w_sib_id w))
+      else negb (w_attached w && ((w_sib_attached w && (u32 y =? w_sib_id w)) || (w_big w && (u32 y =? w_big_id w))))
   | WNodeID z =>
       if u32 z =? w_node_id w then true
       else negb (w_on_bus w && negb (w_iface_removed w) && w_on_bus2 w && (u32 z =? w_node2_id w))
   | WAttach =>
       negb (w_attached w)
-      && negb (negb (w_has_static w) && w_sib_attached w && (w_id w =? w_sib_id w))
+      && negb (negb (w_has_static w) && ((w_sib_attached w && (w_id w =? w_sib_id w)) || (w_big w && (w_id w =? w_big_id w))))
+      && negb (w_has_static w && w_on_bus w && w_on_bus2 w && static2_is w (w_static w))
   | WDetach => w_attached w
   | WDetachAll => true
-  | WBusAdd => negb (w_on_bus w) && negb (w_on_bus2 w && (w_node_id w =? w_node2_id w))
+  | WBusAdd =>
+      (* refused for: node already there, node id in use, an oversized message, a static CAN-ID in use *)
+      negb (w_on_bus w) && negb (w_on_bus2 w && (w_node_id w =? w_node2_id w))
+      && negb (w_big w)
+      && negb (w_attached w && w_has_static w && w_on_bus2 w && static2_is w (w_static w))
+  | WBigAdd =>
+      negb (w_big w) && negb (w_on_bus w)
+      && negb (w_attached w && negb (w_has_static w) && (w_id w =? w_big_id w))
+      && negb (w_sib_attached w && (w_sib_id w =? w_big_id w))
+  | WBigRemove => w_big w
   | WBusRemove => w_on_bus w
   | WBusRemoveAll => true
   | WRemoveInterface => negb (w_iface_removed w)
   | WNetAdd => negb (w_in_net w)
   | WNetRemove => w_in_net w
   | WBusAdd2 => negb (w_on_bus2 w) && negb (w_on_bus w && (w_node_id w =? w_node2_id w))
+                && negb (w_on_bus w && w_attached w && w_has_static w && static2_is w (w_static w))
   | WBusRemove2 => w_on_bus2 w
   | WSetBuilderB _ => true
   | WSetBuilder _ => true
@@ -245,7 +272,9 @@ Definition wapply (w : world) (o : wop) : world :=
   | WNodeID z => upd_node w (u32 z)
   | WAttach => upd_links w true (w_on_bus w) (w_sib_attached w) (w_on_bus2 w) (w_in_net w) (w_iface_removed w)
   | WDetach => upd_links w false (w_on_bus w) (w_sib_attached w) (w_on_bus2 w) (w_in_net w) (w_iface_removed w)
-  | WDetachAll => upd_links w false (w_on_bus w) false (w_on_bus2 w) (w_in_net w) (w_iface_removed w)
+  | WDetachAll => upd_big (upd_links w false (w_on_bus w) false (w_on_bus2 w) (w_in_net w) (w_iface_removed w)) false
+  | WBigAdd => upd_big w true
+  | WBigRemove => upd_big w false
   | WBusAdd => upd_links w (w_attached w) true (w_sib_attached w) (w_on_bus2 w) (w_in_net w) (w_iface_removed w)
   | WBusRemove => upd_links w (w_attached w) false (w_sib_attached w) (w_on_bus2 w) (w_in_net w) (w_iface_removed w)
   | WBusRemoveAll => upd_links w (w_attached w) false (w_sib_attached w) false (w_in_net w) (w_iface_removed w)
@@ -277,6 +306,6 @@ Definition view (w : world) : message :=
 Definition world_can_id (w : world) : Z := get_can_id (view w).
 
 (* the sibling message is attached from the start *)
-Definition init_world (mid nid sib_id node2_id : Z) (pool : list (list op)) : world :=
+Definition init_world (mid nid sib_id node2_id big_id : Z) (static2 : option Z) (pool : list (list op)) : world :=
   mkWorld (u32 mid) 0 0 false false false (u32 nid) (default_ops :: pool) 0
-    (u32 sib_id) true (u32 node2_id) false false false.
+    (u32 sib_id) true (u32 node2_id) false false false (u32 big_id) false static2.
